@@ -184,6 +184,11 @@ func (r *Runner) oblige(st *State, kind, label string, goal Term, pos token.Pos)
 		o.Props = clauseProps(label, r.curSpec.Props)
 	}
 	r.obligs = append(r.obligs, o)
+	if kind == "lockset" {
+		// a breach of the lock discipline says nothing about the values on the path: the path goes on
+		// (assuming the goal -- often literally false -- would make everything after it vacuous)
+		return
+	}
 	st.assume(goal)
 }
 
